@@ -1683,6 +1683,10 @@ namespace ipr::impl {
 
       const ipr::Identifier& name_factory::get_identifier(const ipr::String& s)
       {
+         // Reserved words are themselves identifiers (they name the built-in types and symbolic constants):
+         // a spelling has a single Identifier node.
+         if (auto word = word_if_known(s.characters()))
+            return *word;
          return *ids.insert(s, id_compare());
       }
 
